@@ -12,7 +12,7 @@
 //!   {"a":"Link","s","r","c","url","loc":bool,"tip"}  {"a":"Merge","s","g":{r1,c1,r2,c2}}
 //!   {"a":"Name","s","name","addr"}  {"a":"Comment","s","r","c","author","text"}
 //!   {"a":"Table","s","name","g":{..},"cols":[..]}  {"a":"Image","s","r","c","img":"sample1.png"[,"as":"stored name"]}  {"a":"Chart","s","r","c"}
-//!   {"a":"Validation","s","sqref","list"}  {"a":"CondFmt","s","sqref","rules":n}  {"a":"Protect","s"}  {"a":"ProtectBook"}
+//!   {"a":"Validation","s","sqref","list"}  {"a":"CondFmt","s","sqref","fmts":[kind,..]}  {"a":"Protect","s"}  {"a":"ProtectBook"}
 //!   {"a":"RowHeight","s","r","h"}  {"a":"ColWidth","s","c","w"}  {"a":"Macro","on":bool}
 //!   {"a":"Save","light":bool}
 //! Every step yields one event: the step's fields + "outcome" ("ok" | "err" | "panic").  "Open" and "Save"
@@ -78,6 +78,35 @@ fn ext_of(name: &str) -> String {
     match name.rsplit_once('.') {
         Some((_, e)) => e.to_string(),
         None => String::new(),
+    }
+}
+
+/// What a rule of a conditional format formats with, as the public getters show it (the level the
+/// specification records): font (none / bold / not bold), fill colours, left border style, number format code,
+/// protection.
+fn fmt_of(style: Option<&Style>) -> Value {
+    match style {
+        None => json!({"has": false, "font": "", "fg": "", "bg": "", "border": "", "numfmt": "", "prot": false}),
+        Some(st) => {
+            let font = match st.get_font() {
+                None => "",
+                Some(f) => {
+                    if *f.get_bold() {
+                        "b"
+                    } else {
+                        "n"
+                    }
+                }
+            };
+            let pf = st.get_fill().and_then(|f| f.get_pattern_fill());
+            let fg = pf.and_then(|p| p.get_foreground_color()).map(|c| c.get_argb().to_string()).unwrap_or_default();
+            let bg = pf.and_then(|p| p.get_background_color()).map(|c| c.get_argb().to_string()).unwrap_or_default();
+            let border = st.get_borders().map(|b| b.get_left_border().get_border_style().to_string()).unwrap_or_default();
+            let border = if border == "none" { String::new() } else { border };
+            let numfmt = st.get_number_format().map(|n| n.get_format_code().to_string()).unwrap_or_default();
+            json!({"has": true, "font": font, "fg": fg, "bg": bg, "border": border, "numfmt": numfmt,
+                   "prot": st.get_protection().is_some()})
+        }
     }
 }
 
@@ -173,7 +202,10 @@ fn model(book: &Spreadsheet) -> Value {
                            "comments": comments.iter().map(|x| json!({"r": clamp(x.0), "c": clamp(x.1)})).collect::<Vec<_>>(),
                            "tables": ws.get_tables().iter().map(|t| t.get_name().to_string()).collect::<Vec<_>>(),
                            "imgs": imgs, "ncharts": ws.get_chart_collection().len(),
-                           "nole": ws.get_ole_objects().get_ole_object().len(), "vmlnoimg": vmlnoimg}));
+                           "nole": ws.get_ole_objects().get_ole_object().len(), "vmlnoimg": vmlnoimg,
+                           "cfr": ws.get_conditional_formatting_collection().iter()
+                               .map(|cf| Value::Array(cf.get_conditional_collection().iter().map(|r| fmt_of(r.get_style())).collect()))
+                               .collect::<Vec<_>>()}));
     }
     json!({"sheets": sheets, "gnames": gnames, "active": *book.get_workbook_view().get_active_tab() as i64,
            "macro": book.get_has_macros()})
@@ -340,14 +372,42 @@ fn apply(book: &mut Spreadsheet, st: &Value, repo: &str) -> Result<(), String> {
             ws.set_data_validations(dvs);
         }
         "CondFmt" => {
+            // one <conditionalFormatting> whose rules carry styles of the given kinds:
+            // "none" (no style), "empty" (Style::default()), "numfmt", "prot", "font" (bold), "fontn" (a font, not
+            // bold), "fill:AARRGGBB", "border", "all"
             let ws = book.get_sheet_mut(&si()).ok_or("no sheet")?;
             let mut cf = ConditionalFormatting::default();
             cf.get_sequence_of_references_mut().set_sqref(s(st, "sqref"));
-            for k in 0..u(st, "rules") {
+            for (k, kind) in st["fmts"].as_array().ok_or("fmts")?.iter().enumerate() {
+                let kind = kind.as_str().ok_or("fmt kind")?;
                 let mut style = Style::default();
-                style.set_background_color(if k % 2 == 0 { "FFFF0000" } else { "FF00FF00" });
-                if k >= 2 {
-                    style.get_font_mut().set_bold(true);
+                match kind {
+                    "none" | "empty" => {}
+                    "numfmt" => {
+                        style.get_number_format_mut().set_format_code("0.00");
+                    }
+                    "prot" => {
+                        style.get_protection_mut().set_locked(true);
+                    }
+                    "font" => {
+                        style.get_font_mut().set_bold(true);
+                    }
+                    "fontn" => {
+                        style.get_font_mut().set_italic(true);
+                    }
+                    "border" => {
+                        style.get_borders_mut().get_left_border_mut().set_border_style("thin");
+                    }
+                    "all" => {
+                        style.get_font_mut().set_bold(true);
+                        style.set_background_color("FF0000FF");
+                        style.get_borders_mut().get_left_border_mut().set_border_style("thin");
+                        style.get_number_format_mut().set_format_code("0.00");
+                    }
+                    x if x.starts_with("fill:") => {
+                        style.set_background_color(&x[5..]);
+                    }
+                    _ => return Err(format!("unknown format kind {}", kind)),
                 }
                 let mut f = Formula::default();
                 f.set_string_value(format!("{}", 10 * (k + 1)));
@@ -355,8 +415,10 @@ fn apply(book: &mut Spreadsheet, st: &Value, repo: &str) -> Result<(), String> {
                 rule.set_type(ConditionalFormatValues::CellIs)
                     .set_operator(ConditionalFormattingOperatorValues::GreaterThan)
                     .set_priority(k as i32 + 1)
-                    .set_style(style)
                     .set_formula(f);
+                if kind != "none" {
+                    rule.set_style(style);
+                }
                 cf.add_conditional_collection(rule);
             }
             ws.add_conditional_formatting_collection(cf);
